@@ -657,6 +657,8 @@ FALLBACK_RULES = [
     Sub(r"(?:\b\w+::)+(?:thread_restart_state|thread_schedule_state|thread_priority|thread_stacksize|runtime_state)(\s+const)?\s+(\w+)\s*(=|;)",
         r"int\1 \2 \3", None),
     Sub(r"\bstd::(?:size_t|ptrdiff_t|u?int(?:8|16|32|64)_t)\b", lambda m: m.group(0)[5:], None),
+    # functional cast of a builtin integer type: std::size_t(-1) -> ((size_t)(-1))
+    Sub(r"(?<![\w.>:])(size_t|ptrdiff_t|u?int(?:8|16|32|64)_t)\((-?\w+)\)", r"((\1)(\2))", None),
     Auto(None),
 ]
 
